@@ -125,6 +125,20 @@ PROPS = {
         "expected_probes": ["duplicate_runs", "distinct_runs", "copies_in_other_shard_input", "outcome_cutoff"],
         "components_real": ["query::runner::hybrid::Query::execute (decrypt, reshard_aad by tag, UniqueTagValidator), report::hybrid::UniqueTag, Gateway shard channels, in-memory transports"],
     },
+    "C12": {
+        "level": "exploration",
+        "rule": "c12_noise: dp_for_histogram (discrete Laplace) on three simulated helpers, output widths {8,16,32}, {32,256} buckets, epsilon in {0.3..10}, boundary/random exact buckets, semi-honest/malicious, seeded schedule; "
+                "the three passes' raw draws are re-derived in a twin world with the same seed from the same PRSS streams. c12_padding: apply_dp_padding on both report kinds (0..12 real rows), with a forged dummy-count "
+                "message in a third of the runs. c12_law (ride-along, nothing scheduled): truncation point, sampler law (chi-square over 20000 draws) and constructor ranges on a seeded (epsilon 0.01..20, delta 1e-2..1e-12, "
+                "sensitivity 1..1000) grid. Non-trivial iff >=1 multi-choice decision (law runs: always); distinct by (configuration, schedule digest)",
+        "scenarios": [
+            {"name": "c12_noise", "quick": 400, "thorough": 20000, "offset": 1, "chunk": 10, "run_timeout": 300},
+            {"name": "c12_padding", "quick": 600, "thorough": 30000, "offset": 2, "chunk": 20, "run_timeout": 300, "crash_ok": True},
+            {"name": "c12_law", "quick": 600, "thorough": 30000, "offset": 3, "chunk": 20, "run_timeout": 300},
+        ],
+        "expected_probes": ["draws_checked", "draws_equal_minus_one", "width_32_runs", "dummy_rows", "padding_tamper_runs", "law_configs"],
+        "components_real": ["protocol::dp::{dp_for_histogram, apply_laplace_noise_pass, ShiftedTruncatedDiscreteLaplace, NoiseParams}, ipa_prf::oprf_padding::{apply_dp_padding, insecure::OPRFPaddingDp, distributions::TruncatedDoubleGeometric}, integer_add, DZKP validators, PRSS sequential generators"],
+    },
     "C13": {
         "level": "exploration",
         "rule": "run = seeded world (3 helpers, optionally x3 shards), 1-5 logical channels (helper and shard channels, shared and distinct steps, "
@@ -210,6 +224,12 @@ NOT_APPLICABLE = {
 }
 
 MANIFEST_TEXT = {
+    "C12": {
+        "text": "The multi-party clauses are decided by simulation: (a) released bucket = exact + the three pairwise-generated draws modulo the output width, with the draws re-derived independently (twin world, same seed, same PRSS streams, the repo's sampler; signed arithmetic done by the oracle) at widths 8/16/32 and 32/256 buckets under seeded schedules; (b) dummy records: all helpers append the same number of rows, real rows untouched and first, every dummy a consistent sharing of a zero-value row, a forged count message rejected by the excluded helper. The pure clauses (smallest truncation point with outer mass <= delta, pmf proportional to exp(-epsilon|x-n|), constructor ranges) have no schedule or fault in them; they ride along as invariants evaluated on a seeded configuration grid (chi-square threshold at 6.5 sigma) and are reported separately. Three genuine defects found here were repaired (fix: fb48ada, 34434ae, d8792f3).",
+        "design_ref": "DESIGN.md section 4, C12 and section 5",
+        "note": "delta and sensitivity of the noise pass are the library defaults (1e-6, 2^3); the dummy-count law itself is covered only through the sampler test, not through the padding protocol's own draws",
+        "technique": "deterministic simulation: seeded schedule search with a twin-world draw oracle; configuration-grid invariants ride along",
+    },
     "C10": {
         "text": "Fault enumeration at the client-input seam of a helper: honest reports must decrypt to exactly the original shares and metadata (and not under another key); every single-bit flip at every offset and every truncation of a sample record, garbage records and damaged framing must yield an error value - never Ok, never a panic. Per sample record the bit-flip and truncation spaces are enumerated completely; records and chunkings are seeded samples. Two genuine defects found by this check were repaired in /repo (fix: commits 1360967, 4e986b5) and are listed as fixed in known_findings.json.",
         "design_ref": "DESIGN.md section 4, C10 and section 7",
